@@ -151,6 +151,12 @@ def main():
             fc = ex.getf(r, 'FlowControl')
             if fc is not None:
                 ob.verify(ex, 'stream-flow-control-positive', And(ex.getf(fc, 'MaxMessages') >= 1, ex.getf(fc, 'MaxBytes') >= 1), describe)
+            ob.verify(ex, 'flow-control-only-from-the-opening-request', (fc is not None) == first, describe)
+            # nothing the client sent is dropped: every ack id and every deadline id of the request is handed on (C03/C04 at the stream entry)
+            rq = req.get()
+            n_ack, n_mod = len(ex.getf(rq, 'AckIds').items()), len(ex.getf(rq, 'ModifyDeadlineAckIds').items())
+            ob.verify(ex, 'every-ack-id-of-the-request-is-applied', len(ex.getf(r, 'Ack').items()) == n_ack, describe)
+            ob.verify(ex, 'every-deadline-id-of-the-request-is-applied', len(ex.getf(r, 'Delay').items()) == n_mod, describe)
     if not only or 'StreamingPull' in only:
         chk.run('StreamingPull:request-adapter', prog, stream_harness, bounds={'repeated fields': '0..3 entries each', 'integers': 'full width'},
                 setup=world.setup, max_paths=50000)
